@@ -215,6 +215,17 @@ PRIVATE_Q = dict(scenario='block_expr', args=dict(policy=expr_profile([['Call', 
 for p in ('C02', 'C04', 'C12'):
     PLANS[p]['thorough'] = PLANS[p]['thorough'] + [PRIVATE_Q]
 
+# many temporaries in one statement: two-digit suffixes (`__datadog_test_10`, ..)
+MANY_TEMPS_Q = dict(scenario='block_expr', args=dict(policy=expr_profile([['Call'], ['Call'], ['Ident']], max_args=(10, 0, 0), names=['a'], props=['substring'], spread=False),
+                                                     pins=[(r'^E/Call\.callee/Expr$', 'Expr', ['Member']), (r'^E/Call\.callee/Expr/Member\.obj$', 'Expr', ['Ident']), (r'^E/Call\.callee/Expr/Member\.prop$', 'MemberProp', ['Ident']),
+                                                           (r'^E/Call\.args\[\d+\]\.expr$', 'Expr', ['Call']), (r'^E/Call\.args\[\d+\]\.expr/Call\.callee/Expr$', 'Expr', ['Ident'])],
+                                                     len_pins=[(r'^E/Call\.args$', [9, 10])],
+                                                     config=[dict(src='plusOperator', dst=None, operator=True, awc=False), dict(src='substring', dst='stringSubstring', operator=False, awc=False)]),
+                    label='a method call with 9-10 effectful arguments: 11-12 temporaries in one statement (two-digit suffixes)')
+for p in ('C06', 'C02'):
+    PLANS[p]['quick'] = PLANS[p]['quick'] + [MANY_TEMPS_Q]
+    PLANS[p]['thorough'] = PLANS[p]['thorough'] + [MANY_TEMPS_Q]
+
 # `this` and super() in a derived-class constructor: reading `this` before super() returns throws, so the two do not commute
 SUPER_Q = dict(scenario='block_expr', args=dict(policy=expr_profile([['Bin', 'Call', 'Tpl'], ['This', 'Call', 'Ident', 'Member'], ['This', 'Ident'], ['Ident']], max_args=(2, 0, 0, 0), names=['a'], props=['substring'], bin_ops=['Add'], spread=True, op_budget=4),
                                                 super_callee=True, wrapper=('class K extends a { constructor() { ', ' } }'),
@@ -503,3 +514,6 @@ for p in ('C02', 'C03'):
 
 PLANS['C13']['quick'] = PLANS['C13']['quick'] + [PROTO_HOLES_Q]
 PLANS['C13']['thorough'] = PLANS['C13']['thorough'] + [PROTO_HOLES_Q]
+
+PLANS['C12']['quick'] = PLANS['C12']['quick'] + [PRINT_Q]
+PLANS['C12']['thorough'] = PLANS['C12']['thorough'] + [PRINT_Q]
